@@ -294,10 +294,23 @@ def standard_run(prop, cases, ctx):
             o = with_alarm(getattr(prop, 'CASE_TIMEOUT', 60), prop.run_impl, c)
         except Timeout:
             o = {'timeout': True}
+        except Exception as e:  # noqa: an exception the property module did not expect from the implementation
+            o = {'impl_exception': '%s: %s' % (type(e).__name__, str(e)[:200])}
         obs.append(o)
     t_impl = time.time() - t_impl
     disagreements = []
     violations = []
+    crashed = [(c, o) for c, o in zip(cases, obs) if isinstance(o, dict) and 'impl_exception' in o]
+    for c, o in crashed:
+        # the implementation raised where the harness expects it to work: a violation with the case as replay
+        violations.append({'case': c, 'summary': {'case': str(c)[:300], 'raised': o['impl_exception']},
+                           'signature': prop.ID + '/impl-exception/' + o['impl_exception'].split(':')[0] + '/' + str(c.get('kind', '') if isinstance(c, dict) else ''),
+                           'what': 'implementation raised %s on an in-domain case' % o['impl_exception'],
+                           'observed': [o['impl_exception']]})
+    if crashed:
+        keep = [(c, o) for c, o in zip(cases, obs) if not (isinstance(o, dict) and 'impl_exception' in o)]
+        cases = [c for c, _ in keep]
+        obs = [o for _, o in keep]
     # correspondence
     if ctx.get('model_exe'):
         reqs, spans = [], []
